@@ -596,6 +596,7 @@ fn listen_part(ctx: &mut Ctx, cases: u32) {
         structural_mutations(syms, *style, &mut take);
     }
     let n = pool.len();
+    let journal = std::cell::RefCell::new(Journal::open(300));
     let stalls = std::cell::Cell::new(0u32);
     let strat = (0..n).prop_map(|i| i);
     let pool = &pool;
@@ -617,6 +618,15 @@ fn listen_part(ctx: &mut Ctx, cases: u32) {
         ctx.case(if malformed { Some(hash64(&(ci, &m.op))) } else { None });
         ctx.class(if malformed { "listen:faulty-connection(malformed)" } else { "listen:faulty-connection(other)" });
         ctx.sample(|| mutated_json(syms, *style, m));
+        {
+            // a hostile input may take the whole process down (the pool's threads are ours too)
+            let mut j = mutated_json(syms, *style, m);
+            j["transport"] = json!("unix");
+            if m.bytes.len() > 4096 {
+                j["regenerate"] = json!(true);
+            }
+            journal.borrow_mut().note(&j);
+        }
         if !run_listen_case(&addr, &originals, &m.bytes, *i as u64)? {
             stalls.set(stalls.get() + 1);
         }
